@@ -581,6 +581,7 @@ func (c *Collection) Search(args SearchArgs) SearchResults {
 	pointsSearched := 0
 
 	consider := func(docid uint64, radius float64) (int, float64) {
+		verifConsider(docid)
 		doc, err := c.getDocument(docid)
 		if err != nil {
 			return StopSearch, radius
